@@ -9,6 +9,7 @@ import random
 HEADER = '''\
 from guppylang import guppy
 from guppylang.std.builtins import array, panic
+from collections.abc import Callable
 
 
 @guppy.declare
@@ -46,6 +47,48 @@ def mk3(a: int) -> array[int, 3]:
 def bump(xs: array[int, 3], i: int) -> int:
     xs[i] += 1
     return xs[i]
+
+
+# generic helpers (type parameters, a const parameter, a generic struct): CPython runs the same bodies with the parameters erased
+TG = guppy.type_var("TG")
+UG = guppy.type_var("UG")
+NG = guppy.nat_var("NG")
+
+
+@guppy
+def gfst(a: TG, b: UG) -> TG:
+    return a
+
+
+@guppy
+def gswap(t: tuple[TG, UG]) -> tuple[UG, TG]:
+    a, b = t
+    return b, a
+
+
+@guppy
+def gpick(c: bool, a: TG, b: TG) -> TG:
+    if c:
+        return a
+    return gfst(b, a)
+
+
+@guppy
+def glen(xs: array[int, NG]) -> int:
+    return len(xs) + int(NG)
+
+
+@guppy
+def gsum(xs: array[int, NG]) -> int:
+    s = 0
+    for v in xs.copy():
+        s += v
+    return s + glen(xs)
+
+
+@guppy
+def gtwice(f1: Callable[[TG], TG], v: TG) -> TG:
+    return f1(f1(v))
 
 '''
 
@@ -241,6 +284,23 @@ def gen_program(kind: str, idx: int, seed: int) -> str:
 
 
 C03_FIXED = [
+    """
+def n0(x: int, y: int) -> int:
+    a = gfst(x, y > 0)
+    b, c = gswap((x, y))
+    d = gpick(x > y, b, c)
+    e = gpick(y > 0, (a, 1), (d, 2))
+    return a + b * 10 + c * 100 + d * 1000 + e[0] * 10000 + e[1] * 100000
+""",
+    """
+def n1(x: int, y: int) -> int:
+    xs = array(x, y, 3)
+    ys = array(y, x)
+    r = glen(xs) * 10 + glen(ys) + gsum(xs) * 100 + gsum(ys) * 1000
+    def inc(t: int) -> int:
+        return t + 3
+    return r + gtwice(inc, y) * 10000
+""",
     """
 def s0(x: int, y: int) -> int:
     p = Pair(x, y)
